@@ -222,6 +222,10 @@ func runC09(env *Env, tier string) {
 		if env.Failed() {
 			return
 		}
+		c09FactoryProbe(env)
+		if env.Failed() {
+			return
+		}
 	}
 	s := StartSut(env, c)
 	p := s.P
